@@ -385,6 +385,16 @@ def _loud_rules(ctx: Ctx, rs: RuleSet):
         if h is not None and not h.is_lambda and (
             '_serialization_constants' in unparse(h.node)):
           return isinstance(t.ops[0], ast.Is)
+      # ... or written out: `(c := (A[k] if k in A else ... else None))`
+      arm = left
+      while isinstance(arm, ast.IfExp):
+        v = dispatch.eval_atoms(arm.test, _ev)
+        if v is None:
+          break
+        arm = arm.body if v else arm.orelse
+      if arm is not left and isinstance(arm, ast.Constant) and (
+          arm.value is None):
+        return isinstance(t.ops[0], ast.Is)
     return None
 
   r = dispatch.reach_atoms(g, _ev)
